@@ -8,30 +8,30 @@ from checks_table import CHECKS  # noqa
 
 TEXT = {
  "C01": ("Deterministic discrete-event simulation of 3 and 5 real RaftNode objects (capture transport, real WAL files) under seeded delivery/duplication/loss/reordering, election timeouts, proposals, partitions and crash/restart; an online monitor holds the committed (index -> term,payload) map, leader-per-term map and log-matching relation and checks every step.",
-         "Held on the schedules explored; fixed membership, no snapshot install / compaction in the cluster simulation (those are driven on a single node by the C10 monitor); crashes are process crashes at record boundaries.",
+         "Held on the schedules explored; fixed membership, no snapshot install / compaction in the cluster simulation (those are driven on a single node by the C10 monitor); crashes are process kills at record boundaries (the WAL file keeps only the bytes that were on disk).",
          "runtime monitoring: online trace checker over a seeded fault-injecting cluster simulation of the real node"),
  "C02": ("Real TensorStore histories (all value kinds/key classes/sync modes) with crash images taken from what was really on disk: after every call, at sampled or all byte cuts inside each call's log growth, inside checkpoint() and WAL rotation via hook callbacks, partial snapshot temp files; every image is recovered with the real recover() and compared with the recorded live states S_lo..S_hi; recovered stores are written to and crashed again (3 crashes). Large (multi-write) records are part of the workload. A strace leg checks on the syscall log that every acknowledgement is preceded by fsync of the log; a second one kills a real checkpoint() at every write/rename/fsync and recovers.",
          "Process-crash model (file = prefix of bytes written); power-loss reordering is out of reach, fsync ordering is checked instead. Byte cuts are sampled for large records.",
          "runtime monitoring: crash-image fault injection with record-and-compare oracle + syscall-order monitor (strace)"),
- "C03": ("Message-level simulation of one real DistributedTxCoordinator and 2-3 real TxParticipants with loss, duplication, reordering, timeouts, late/duplicate votes, concurrent transactions, messages of one transaction handled on several threads at once, and a coordinator log that refuses appends followed by a coordinator restart; clause-wise oracle over decisions (also across the restart), applied writes and pre-images.",
+ "C03": ("Message-level simulation of one real DistributedTxCoordinator and 2-3 real TxParticipants with loss, duplication, reordering, timeouts, late/duplicate votes, concurrent transactions, messages of one transaction handled on several threads at once (duplicate PREPARE during COMMIT, PREPARE of another transaction during COMMIT or during a rollback), coordinator and participant restarts through their persisted state, and a coordinator log that refuses appends followed by a coordinator restart; clause-wise oracle over decisions (also across the restart), applied writes and pre-images.",
          "Held on the schedules explored; participant lock expiry left at its default (never fires).",
          "runtime monitoring: online oracle over a seeded message-fault simulation of the real coordinator/participants"),
  "C04": ("Model-based differential testing of the real RelationalEngine: Condition::evaluate on the harness's own row model defines 'satisfies'; every query path (scan, hash index, ordered index, columnar, limit/offset, cursor, aggregates, update, delete, text via the router with the query cache off and on, minimal-parentheses WHERE text) is compared on random schemas, data with edge-case values and condition trees.",
          "Held on the programs explored; <=200 rows, <=4 columns, depth <=5.",
          "runtime monitoring: reference-model oracle + cross-path differential on randomized programs"),
- "C05": ("Real GraphEngine under sequential model-based programs and 2-8 thread stress on hub nodes (seeded jitter and deterministic parking at the adjacency read-modify-write hook); structural invariant walker and no-lost-edge conservation at quiescence; TSan leg on the concurrent part.",
+ "C05": ("Real GraphEngine under sequential model-based programs and 2-8 thread stress on hub nodes (seeded jitter and deterministic parking at the adjacency read-modify-write hook); batch creations/deletions from several threads on mostly disjoint nodes and racing delete_node; single-threaded bulk programs (batch_delete_nodes/edges on adjacent nodes around the 100-edge parallel threshold) against a reference multigraph; structural invariant walker and no-lost-edge conservation at quiescence; TSan leg on the concurrent part.",
          "Held on the programs/interleavings explored.",
          "runtime monitoring: invariant walker at quiescence + conservation oracle under stress and forced interleavings; ThreadSanitizer"),
- "C06": ("Real VectorEngine/HNSW against an f64 reference scorer: exhaustive-search exactness, cached-index soundness after every mutation API, read-back exactness, on random stores (dense/sparse/zero/duplicate/mixed dimensions) and operation programs.",
+ "C06": ("Real VectorEngine/HNSW against an f64 reference scorer: exhaustive-search exactness, cached-index soundness after every mutation API, re-ranking searches under every extended metric, queries of another dimension on every index-assisted path, read-back exactness, on random stores (dense/sparse/zero/duplicate/mixed dimensions) and operation programs.",
          "Held on the programs explored; <=300 vectors, dim <=64 (+ some 384/768); epsilon for f32-vs-f64.",
          "runtime monitoring: reference-scorer oracle over randomized operation programs"),
- "C07": ("Stores filled through the real engines and raw puts (including cache-ring keys and incompressible payloads) are saved/loaded through 9 paths and re-observed through store and engine read APIs (deep equality, documented tolerance for tensor-train vectors); atomic replacement is checked by killing a real save at every write/open/rename syscall under strace and loading the destination, by a protocol check on the syscall log, by enumerating temp-file prefixes and stale temp files, and by re-snapshotting after further writes.",
+ "C07": ("Stores filled through the real engines and raw puts (including cache-ring keys and incompressible payloads) are saved/loaded through 9 paths (plus routers built with SlabRouter::with_config at embedding dimensions 1-600) and re-observed through store and engine read APIs including relational-slab index reads after random schema/index histories (deep equality, documented tolerance for tensor-train vectors); atomic replacement is checked by killing a real save at every write/open/rename syscall under strace and loading the destination, by a protocol check on the syscall log, by enumerating temp-file prefixes and stale temp files, and by re-snapshotting after further writes.",
          "Process-kill model; dense random >=256-dim vectors are not judged (no documented bound when the rank cap binds).",
          "runtime monitoring: record-and-compare oracle + strace kill injection and syscall-log protocol monitor"),
- "C08": ("Random statement programs through the real QueryRouter (sync, async and parsed-statement entry points, query cache on/off, plain and Bloom-filter stores) with CHECKPOINT / ROLLBACK TO; the observation vector (table, graph, embedding queries) recorded at checkpoint time must be reproduced after rollback; further writes must work; retention keeps the newest N.",
+ "C08": ("Random statement programs through the real QueryRouter (sync, async and parsed-statement entry points, query cache on/off, plain and Bloom-filter stores) with CHECKPOINT / ROLLBACK TO; the observation vector (table, graph, embedding queries) recorded at checkpoint time must be reproduced after rollback; further writes must work; retention keeps the newest N, also over repeated checkpoint/rollback cycles that reuse names of purged checkpoints.",
          "Held on the programs explored; retention judged only at the 1 s granularity of the code's stamps.",
          "runtime monitoring: record-and-compare oracle at the query interface"),
- "C09": ("Real RelationalEngine transactions: sequential and interleaved multi-transaction programs over tables with hash and ordered indexes; pre-transaction recordings must be reproduced after rollback through every access path, commits must persist, conflicting writers must get LockConflict, no locks may remain; statements failing half-way under tight index capacity; lock expiry and take-over scenarios.",
+ "C09": ("Real RelationalEngine transactions: sequential and interleaved multi-transaction programs over tables with hash and ordered indexes; pre-transaction recordings must be reproduced after rollback through every access path, commits must persist, conflicting writers must get LockConflict, no locks may remain; statements failing half-way under tight index capacity; lock expiry and take-over scenarios; real threads: one wide multi-row statement against small transactions that commit on its rows between its scan and its locks.",
          "Held on the programs/interleavings explored; lock timeouts exercised at 1 s granularity with don't-care windows.",
          "runtime monitoring: model + record-and-compare oracle, lock-table monitor"),
  "C10": ("A real RaftNode with a real WAL is driven through elections, votes, appends, truncations, leader careers, log compaction and snapshot installs; every reply/ack adds obligations (term, vote, entries) stamped with the WAL length; every byte-prefix crash image (chains of 3 crashes) is restarted with with_wal and must honour all obligations stamped before the cut.",
@@ -43,7 +43,7 @@ TEXT = {
  "C12": ("Real LockManager under 2-6 threads with a sound shadow-owner table, model-based sequential programs with expiry and serialize/restore, and the real WaitForGraph/DeadlockDetector against a reference SCC on all digraphs over <=4 transactions and random ones up to 8.",
          "Held on what was explored; expiry windows are don't-care.",
          "runtime monitoring: shadow-state monitor + reference oracle (exhaustive for <=4 transactions)"),
- "C13": ("Real coordinator with a real TxWal: byte-granular crash images (chains of 3) are recovered and probed (commit/abort/timeouts/pending decisions/new transactions) against a classification the harness decodes itself from the durable prefix (including lock handles of completed transactions and completions logged after the restart).",
+ "C13": ("Real coordinator with a real TxWal: byte-granular crash images (chains of 3) are recovered and probed (commit/abort/timeouts/pending decisions/new transactions) against a classification the harness decodes itself from the durable prefix (including lock handles of completed transactions, completions logged after the restart, outcomes announced by commit/abort/cleanup_timeouts/complete_* before the crash, and transactions whose log says Prepared although a participant had not voted).",
          "Process-crash model; see C02.",
          "runtime monitoring: crash-image fault injection with independent log-decoding oracle"),
  "C14": ("Random programs of vault operations by root and 3-5 identities (grants, TTLs, delegation DAGs with plain and cascading revocation, rotation, restarts) compared decision-by-decision with an independent access model (only-if direction), plus byte-substring scans for unique secret names/values in the store image, snapshots, audit records and error messages.",
@@ -55,7 +55,7 @@ TEXT = {
  "C16": ("Real TensorChain: sequential workspace programs, tamper matrix over every stored block and field, concurrent commits (stress and parked at the commit hook), replica replay on two stores, re-opening the chain on crash images with the persisted height behind/ahead of the stored blocks; verify() must accept built chains and reject tampered ones, commits must be atomic.",
          "Held on the programs/interleavings explored.",
          "runtime monitoring: tamper-injection oracle + atomicity/conservation checks under forced interleavings"),
- "C17": ("Real LWWMembershipState / GossipMembershipManager on every multiset of <=4 (quick) / <=5 (thorough) updates over a small universe in every permutation and batching, plus random larger multisets and random programs of merges and local events, with an online monitor for view equality and monotonicity.",
+ "C17": ("Real LWWMembershipState / GossipMembershipManager on every multiset of <=4 (quick) / <=5 (thorough) updates over a small universe in every permutation and batching, plus random larger multisets and random programs of merges and local events (Syncs also sent by observed members reporting on themselves), with an online monitor for view equality, monotonicity and retention of every delivered incarnation; hybrid-logical-clock programs.",
          "Universe bounded (2 members, incarnation 0-2, timestamp 1-2 for the exhaustive part).",
          "runtime monitoring: online oracle over enumerated delivery orders and randomized programs"),
  "C18": ("Real GraphEngine path queries and algorithms against independent reference implementations (BFS, Bellman-Ford, DFS enumeration, Tarjan, Kruskal, peeling, triangle enumeration, exhaustive enumeration of variable-length pattern matches) on random multigraphs with self-loops, parallel edges, mixed direction, filters.",
